@@ -120,6 +120,13 @@ fn mutate(src: &str, t: &mut Tape<'_>) -> String {
     toks.concat()
 }
 
+pub fn mutate_text(src: &str, t: &mut Tape<'_>) -> String {
+    mutate(src, t)
+}
+pub fn dict_token(t: &mut Tape<'_>) -> &'static str {
+    *t.pick(DICT)
+}
+
 fn body_of(full: &str) -> &str {
     full.find(crate::genp::prog::PRELUDE).map_or(full, |i| &full[i + crate::genp::prog::PRELUDE.len()..])
 }
